@@ -313,6 +313,8 @@ package tree
 //@   ensures [C08,C05] automatic: result == nil ==> in("OPTIONS", n.handlers) && in("", n.handlers)
 //@   ensures [C18,C04] no-manual-trace: result == nil ==> (n.root.hasTrace ==> !in("TRACE", n.handlers))
 //@   ensures [C08] nothing-lost: result == nil ==> (forall k string :: old(in(k, n.handlers)) ==> in(k, n.handlers))
+//@   cut tree.Tree.buildMethods 1 [C17] valid-before-recount: forall i int :: 0 <= i && i < len(methods) ==> !reserved(n, methods[i]) && bit(methods[i]) != 0 && !old(in(methods[i], n.handlers)) &&
+//@        (forall j int :: 0 <= j && j < i ==> methods[j] != methods[i])
 //@   cut tree.node.buildMethods 1 [C08] installed-before-recount: forall i int :: 0 <= i && i < len(methods) ==> in(methods[i], n.handlers)
 //@   inv 1 [C17] bound: -1 <= rangeindex && rangeindex < len(methods)
 //@   inv 1 [C17] validated: forall i int :: 0 <= i && i <= rangeindex ==> !reserved(n, methods[i]) && bit(methods[i]) != 0 && !in(methods[i], n.handlers) &&
